@@ -820,6 +820,9 @@ def _type_from_subscripted_value(
         argument = _type_from_value(members[0], ctx)
         return SubclassValue.make(argument)
     elif is_typing_name(root, "Annotated"):
+        if not members:
+            ctx.show_error("Annotated[] requires at least one argument")
+            return AnyValue(AnySource.error)
         origin, *metadata = members
         return _make_annotated(_type_from_value(origin, ctx), metadata, ctx)
     elif is_typing_name(root, "TypeGuard"):
